@@ -17,7 +17,7 @@ RULE = (
     "full load, for a generated window (rows a::s with s in {1..5,7,-1,-3}, columns c0:c1) and for a generated list of lines. "
     "Non-trivial: lines>=2 and pixels>=2 and at least two distinct sample words. Distinct = sha1 "
     "of the case dict."
-    " One case in six also writes the index cache and reads the pixels again through it. Stage 'in-place-pairs': two such products with the same file names are materialised one after the other at the same root and both are judged."
+    " One case in six also writes the index cache and reads the pixels again through it. Stage 'in-place-pairs': two such products with the same file names are materialised one after the other at the same root and both are judged (in two thirds of the pairs the first product leaves its index behind). The encoder also varies the line numbering (usual / restarting / zeros). Stage 'beyond-4GiB': one virtual image of 4.4 GB on vtrace:// (4400 lines of ~1 MB, eight of them with samples, the rest zero and never materialised); lines on both sides of file offsets 2^31 and 2^32, the first, the last and three zero lines are compared with the bytes at their offsets."
 )
 ASSUMPTIONS = [
     "layout tables under /verif/layout are the reference for where the sample area starts",
@@ -72,12 +72,58 @@ def cases(draw, max_lines=48, max_pixels=32):
     return case
 
 
+def beyond_4gib_cases():
+    """one virtual image of 4.4 GB (4400 lines of ~1 MB; only eight lines carry samples, the rest
+    is zero and never materialised): byte offsets pass 2^31 and 2^32"""
+    rows = {0: 1, 2146: 2, 2147: 3, 2148: 4, 4294: 5, 4295: 6, 4296: 7, 4399: 8}
+    yield {"beyond_4gib": True, "level": "1.5", "images": [{"lines": 4400, "pixels": 499900, "sparse_rows": {str(k): v for k, v in rows.items()}}],
+           "rpc": 64, "fs": "vtrace", "vseed": 41, "zero_rows": [1, 2149, 4297], "case_timeout_s": 900}
+
+
+def run_beyond_4gib(case):
+    from vf.runner import touch
+
+    spec = common.spec_from(case)
+    spec["images"][0]["sparse_rows"] = {int(k): v for k, v in case["images"][0]["sparse_rows"].items()}
+    files, info = product.build_product(spec)
+    touch()
+    iinfo = info["images"][0]
+    data = files[iinfo["name"]]
+    lines, pixels, reclen = iinfo["lines"], iinfo["pixels"], iinfo["reclen"]
+    gname = common.group_names(spec)[0]
+    out = []
+    with harness.Materialised(files, "vtrace") as prod:
+        tree, err = harness.guard(harness.open_tree, prod.url, records_per_chunk=case["rpc"], use_cache=False)
+        touch()
+        if err is not None:
+            return [harness.disc("exception", "open_alos2", "a tree", harness.exc_text(err))]
+        da = tree[f"imagery/{gname}"]["data"]
+        if tuple(da.shape) != (lines, pixels):
+            return [harness.disc("shape", f"/imagery/{gname}#data", (lines, pixels), tuple(da.shape))]
+        for row in sorted(spec["images"][0]["sparse_rows"]) + list(case["zero_rows"]):
+            values, err = harness.guard(lambda: np.asarray(da.isel(rows=row).values))
+            touch()
+            where = f"/imagery/{gname}#data line {row} (file offset {720 + row * reclen})"
+            if err is not None:
+                out.append(harness.disc("exception", where, "the line", harness.exc_text(err)))
+                break
+            start = 720 + row * reclen + (reclen - 2 * pixels)
+            want = np.frombuffer(data[start: start + 2 * pixels], ">u2")
+            if values.shape != want.shape or not bool((values == want).all()):
+                bad = int((values != want).sum()) if values.shape == want.shape else -1
+                out.append(harness.disc("pixels", where, "the samples stored at that offset", f"{bad} of {pixels} samples differ"))
+                break
+    return out
+
+
 def plan(tier):
     pairs = common.in_place_pairs(cases(16, 8), stale_index=True)
     if tier == "quick":
-        return [{"kind": "hyp", "name": "products", "strategy": cases(), "examples": 480},
+        return [{"kind": "enum", "name": "beyond-4GiB", "cases": beyond_4gib_cases, "exhaustive": False},
+                {"kind": "hyp", "name": "products", "strategy": cases(), "examples": 480},
                 {"kind": "hyp", "name": "in-place-pairs", "strategy": pairs, "examples": 80}]
     return [
+        {"kind": "enum", "name": "beyond-4GiB", "cases": beyond_4gib_cases, "exhaustive": False},
         {"kind": "hyp", "name": "products", "strategy": cases(), "examples": 16 * 1200},
         {"kind": "hyp", "name": "in-place-pairs", "strategy": pairs, "examples": 16 * 200},
         {"kind": "hyp", "name": "large", "strategy": cases(400, 64), "examples": 16 * 60},
@@ -155,6 +201,8 @@ def check_window(case, var, iinfo, exp, where):
 
 
 def run_case(case):
+    if case.get("beyond_4gib"):
+        return run_beyond_4gib(case)
     spec = common.spec_from(case)
     files, info = product.build_product(spec)
     out = []
